@@ -22,7 +22,14 @@ def _engine_targets(ded, results, tier):
     side = importlib.import_module(ded["sidecar"])
     out = []
     all_obls = []
-    for tgt in ded["targets"]:
+    targets = list(ded["targets"])
+    for tgt in list(targets):
+        # a contract that delegates some of its ensures to variants: the variants are verified with it, always
+        cc = getattr(side, "CONTRACTS", {}).get(tgt)
+        for var in sorted(set(getattr(cc, "ensures_in_variant", {}).values())) if cc is not None else []:
+            if f"{tgt}@{var}" not in targets:
+                targets.append(f"{tgt}@{var}")
+    for tgt in targets:
         rec = {"target": tgt, "module": ded["module"], "status": None, "obligations": [], "reason": ""}
         try:
             eng = Engine(ded["module"], side, src_root=SRC_ROOT)
